@@ -312,6 +312,10 @@ def run(prog, chk):
         else:
             r3.ok(w, "sequences: %s" % "; ".join(sorted(seqs)))
 
+    # the packet iterator walk_loop opens is closed or aborted exactly once on every path (shared with C06 R4)
+    from . import c06
+    c06.internal_users_rule(prog, chk, rid="R4", primary=False)
+
     r1 = chk.rule("R1-handles-released", "handle arrays obtained from the enumeration calls are freed, and every element handle "
                   "is released, on every path including SKIP/END/error exits", floor=3)
     for w, getter, elem_free in (("cif_walk", "cif_get_all_blocks", "cif_block_free"),
